@@ -250,7 +250,7 @@ def gen_case(rng, name, prof=None):
             node_p, spec = rng.choice(nodes)
             if spec[0] == "sec" and spec[5]:
                 node_p = p
-            ops.append(["read", node_p, rng.choice(["value", "weight", "notl", "price"])])
+            ops.append(["read", node_p, rng.choice(["value", "weight", "notl", "price", "series"])])
     ops.append(["update", row])
     return {"name": name, "nrows": nrows, "intpos": rng.random() < prof.p_intpos, "comm": gen_comm(rng, prof),
             "prices": prices, "bidoffer": bidoffer, "coupons": coupons, "cost_long": cost_long,
